@@ -17,7 +17,12 @@ package main
 //                                                          AccumulateRGBA/ConvertRGBA32ToUV[Dithered]
 //                                                          == real U/V planes                       op imp_uvrows
 // and the property itself, end to end on the real webp.Encode: every placement of the same
-// pixels gives a byte-identical file; outside bytes are irrelevant; caller buffers unchanged.
+// pixels gives a byte-identical file; outside bytes are irrelevant; caller buffers unchanged;
+// and none of this depends on what the process encoded before (the lossy encoder object and
+// its import scratch rows are pooled): plane imports run on an encoder that has just imported
+// another picture (hook verifapi.ImportPlanesAfter), placements are re-encoded right after a
+// prior picture with equal macroblock dimensions, and a mismatch that does not show again on
+// re-run is reported as ":history-dependent" (counter "nonreproducible"), never dropped.
 
 import (
 	"bytes"
@@ -29,6 +34,7 @@ import (
 	"strconv"
 	"strings"
 	"sync"
+	"sync/atomic"
 	"time"
 
 	webp "github.com/deepteams/webp"
@@ -154,6 +160,81 @@ func ycbcrDigest(a *image.YCbCr) string {
 	return "y=" + digest(a.Y) + ",cb=" + digest(a.Cb) + ",cr=" + digest(a.Cr)
 }
 
+// ---- history-aware plane import (imp_y / imp_uvrows) ----
+//
+// The Lean model makes the imported planes a function of the image alone. The real importImage
+// runs on a pooled VP8Encoder whose scratch rows (serialPlanar*, the UV workers' planar buffers)
+// survive from the previous picture, so a line is evaluated on an encoder object that has just
+// imported a PRIOR picture of the same macroblock dimensions (hook verifapi.ImportPlanesAfter).
+// The prior is a function of the line's hash: the driver line, and the model's answer, are
+// unchanged, and the impline replay rebuilds the same prior.
+var impPriorKinds = []string{"", "gen-alpha", "dither-alpha", "nrgba-alpha", "gen-opaque", "gen-alpha", "dither-alpha"}
+
+func impPriorKind(line string) string {
+	return impPriorKinds[(fnv1a([]byte(line))>>20)%uint64(len(impPriorKinds))]
+}
+
+var impPriorReused, impPriorNotReused atomic.Int64
+
+// impPriorFor builds the prior picture (same macroblock dimensions as w x h) and its config.
+func impPriorFor(line string, w, h int) (kind string, img image.Image, cfg verifapi.LossyEncodeConfig) {
+	kind = impPriorKind(line)
+	if kind == "" {
+		return
+	}
+	hash := fnv1a([]byte(line))
+	pw := 16*((w+15)>>4-1) + 1 + int(hash>>8&15)
+	ph := 16*((h+15)>>4-1) + 1 + int(hash>>12&15)
+	m := &image.NRGBA{Pix: impPriorPixels(hash, pw, ph, kind != "gen-opaque"), Stride: 4 * pw, Rect: image.Rect(0, 0, pw, ph)}
+	cfg = verifapi.LossyDefaultConfig(75)
+	cfg.HasAlpha = 1
+	switch kind {
+	case "gen-alpha":
+		img = impGenNRGBA{m}
+	case "dither-alpha":
+		img = m
+		cfg.Dithering = 0.5
+	case "nrgba-alpha":
+		img = m
+	case "gen-opaque":
+		img = impGenNRGBA{m}
+		cfg.HasAlpha = 0
+	}
+	return
+}
+
+// impPriorPixels: noise colours; alpha a mix of 0, partial and 255 (or all 255).
+func impPriorPixels(seed uint64, w, h int, alpha bool) []byte {
+	pix := NewRNG(seed, 0x9a10).Bytes(4 * w * h)
+	for i := 3; i < len(pix); i += 4 {
+		switch a := pix[i]; {
+		case !alpha || a > 170:
+			pix[i] = 255
+		case a < 90:
+			pix[i] = 0
+		}
+	}
+	return pix
+}
+
+// impPlanes is verifapi.ImportPlanes, preceded by the line's prior import on the same encoder.
+func impPlanes(line string, img image.Image, cfg verifapi.LossyEncodeConfig, w, h int) (y, u, v []byte, ys, uvs, mbW, mbH int, note string) {
+	kind, prior, pcfg := impPriorFor(line, w, h)
+	if kind == "" {
+		y, u, v, ys, uvs, mbW, mbH = verifapi.ImportPlanes(img, cfg)
+		return
+	}
+	var reused bool
+	y, u, v, ys, uvs, mbW, mbH, reused = verifapi.ImportPlanesAfter(prior, pcfg, img, cfg, 6)
+	if reused {
+		impPriorReused.Add(1)
+	} else {
+		impPriorNotReused.Add(1)
+	}
+	note = fmt.Sprintf(" [on the encoder that had just imported a %v %s picture: reused=%v]", prior.Bounds().Size(), kind, reused)
+	return
+}
+
 // impCheckLine evaluates one driver line on the real code and compares with the model's
 // answer. match == true: tie holds for this line. goDesc is what Go produced (a canonical
 // line for the verbatim ops, a description for the two-stage ops). callerMod reports that
@@ -179,6 +260,7 @@ func impCheckLine(line, lean string) (match bool, goDesc string, callerMod bool)
 	w, h := m.rect.Dx(), m.rect.Dy()
 	defer func() { callerMod = !bytes.Equal(pix, m.pix) }()
 
+	var note string // which prior import preceded the one under test (imp_y / imp_uvrows)
 	lossyCfg := func(amp, ha int) verifapi.LossyEncodeConfig {
 		cfg := verifapi.LossyDefaultConfig(75)
 		cfg.Dithering = impDither(amp)
@@ -264,13 +346,14 @@ func impCheckLine(line, lean string) (match bool, goDesc string, callerMod bool)
 		}
 		amp, _ := strconv.Atoi(args[0])
 		g, _ := guard(func() string {
-			y, _, _, ys, _, mbW, mbH := verifapi.ImportPlanes(img, lossyCfg(amp, int(fnv1a([]byte(line))&1)))
+			y, _, _, ys, _, mbW, mbH, n := impPlanes(line, img, lossyCfg(amp, int(fnv1a([]byte(line))&1)), w, h)
+			note = n
 			if ys != mbW*16 || len(y) != mbW*16*mbH*16 {
 				return fmt.Sprintf("err layout ystride=%d mbW=%d mbH=%d len=%d", ys, mbW, mbH, len(y))
 			}
 			return "ok " + digest(y)
 		})
-		return g == lean, g, false
+		return g == lean, g + note, false
 	case "imp_uvrows":
 		if len(args) != 3 || !m.wellFormed() {
 			return true, "skipped-malformed", false
@@ -280,7 +363,8 @@ func impCheckLine(line, lean string) (match bool, goDesc string, callerMod bool)
 		var same bool
 		g, _ := guard(func() string {
 			cfg := lossyCfg(amp, ha)
-			_, u, v, _, uvs, mbW, mbH := verifapi.ImportPlanes(img, cfg)
+			_, u, v, _, uvs, mbW, mbH, n := impPlanes(line, img, cfg, w, h)
+			note = n
 			padW, padH := mbW*16, mbH*16
 			pairs, uvW := padH/2, (padW+1)>>1
 			d := "ok real:u=" + digest(u) + ",v=" + digest(v)
@@ -306,9 +390,9 @@ func impCheckLine(line, lean string) (match bool, goDesc string, callerMod bool)
 			return d + " model:u=" + digest(mu) + ",v=" + digest(mv)
 		})
 		if g == "panic" || strings.HasPrefix(g, "err") {
-			return g == lean, g, false
+			return g == lean, g + note, false
 		}
-		return same, g, false
+		return same, g + note, false
 	}
 	return false, "bad-op", false
 }
@@ -422,6 +506,24 @@ func impEmbed(r *RNG, kind string, w, h int, tight []byte) (pix []byte, stride i
 			copy(pix[y*stride:], tight[y*4*w:(y+1)*4*w])
 		}
 		return pix, stride, image.Rect(0, 0, w, h)
+	case "band":
+		// full-width band of a taller garbage-filled parent: Stride == 4*w although Pix runs on to
+		// the end of the parent's buffer (rows below the band); no outside alpha byte is 255
+		oy, eb := []int{0, 1, 3}[r.Intn(3)], 1+r.Intn(2)
+		py := 0
+		if r.Chance(1, 3) {
+			py = r.Intn(21) - 10
+		}
+		parent := image.NewNRGBA(image.Rect(0, py, w, py+oy+h+eb))
+		copy(parent.Pix, r.Bytes(len(parent.Pix)))
+		impNoOpaqueAlpha(parent.Pix)
+		copy(parent.Pix[parent.PixOffset(0, py+oy):], tight)
+		sub := parent.SubImage(image.Rect(0, py+oy, w, py+oy+h)).(*image.NRGBA)
+		return sub.Pix, sub.Stride, sub.Rect
+	case "tail":
+		// tight stride at the origin, 1..64 garbage bytes after the last row
+		pix = append(append([]byte(nil), tight...), impNoOpaqueAlpha(r.Bytes(1+r.Intn(64)))...)
+		return pix, 4 * w, image.Rect(0, 0, w, h)
 	default: // "sub": SubImage of a larger parent whose own origin may be non-zero
 		ox, oy := r.Intn(4), r.Intn(4)
 		if ox == 0 && oy == 0 {
@@ -440,6 +542,17 @@ func impEmbed(r *RNG, kind string, w, h int, tight []byte) (pix []byte, stride i
 		sub := parent.SubImage(image.Rect(px+ox, py+oy, px+ox+w, py+oy+h)).(*image.NRGBA)
 		return sub.Pix, sub.Stride, sub.Rect
 	}
+}
+
+// impNoOpaqueAlpha rewrites every alpha position (index 3 mod 4) holding 255: garbage that a
+// has-alpha scan must not look at.
+func impNoOpaqueAlpha(b []byte) []byte {
+	for i := 3; i < len(b); i += 4 {
+		if b[i] == 255 {
+			b[i] = byte(i*37) & 0x7f
+		}
+	}
+	return b
 }
 
 type impLine struct {
@@ -476,6 +589,9 @@ func impGenLines(seed uint64, nPics int, rep *Report) []impLine {
 		if r.Chance(1, 4) {
 			cls = ClsNoise
 		}
+		if i%3 == 1 { // has-alpha scans are only observable on opaque pictures
+			acls = AlphaNone
+		}
 		pic := GenImage(r, w, h, cls, acls)
 		if acls != AlphaNone && r.Chance(1, 2) {
 			impTweak(r, pic, 1+r.Intn(2))
@@ -485,7 +601,7 @@ func impGenLines(seed uint64, nPics int, rep *Report) []impLine {
 		premul := impPremul(tight)
 		noZero := !impHasZeroAlpha(tight)
 
-		embs := []string{"origin", "sub", "pad", "shift"}
+		embs := []string{"origin", "sub", "pad", "shift", "band", "tail"}
 		for _, emb := range embs {
 			// src kinds: NRGBA bytes as n/gn; premultiplied bytes as r/gr; now and then the raw
 			// (invalid as premultiplied: c > a) bytes as r/gr
@@ -683,7 +799,7 @@ func (p *impPlaced) mutateOutside(r *RNG) int {
 	return n
 }
 
-var impPlacements = []string{"sub11", "sub30", "sub05", "pad4", "pad12", "shift", "generic", "generic64", "genericRGBA64", "genericRGBA", "rgba-generic", "rgba-sub"}
+var impPlacements = []string{"sub11", "sub30", "sub05", "pad4", "pad12", "shift", "band", "tail", "generic", "generic64", "genericRGBA64", "genericRGBA", "rgba-generic", "rgba-sub", "rgba-band", "rgba-tail"}
 
 // impRefOf names the placement whose encoding must be reproduced.
 func impRefOf(pl string) string {
@@ -758,6 +874,44 @@ func impPlace(name string, w, h int, tight []byte, gseed uint64) (*impPlaced, st
 		m := origin()
 		m.Rect = image.Rect(-7, 13, -7+w, 13+h)
 		return &impPlaced{img: m, buf: m.Pix, hdr: nrgbaHdr(m)}, ""
+	case "band", "rgba-band":
+		// full-width band of a taller parent: Stride == 4*w, yet Pix runs on over the rows below the
+		// band to the end of the parent's buffer; no alpha position outside the band holds 255
+		src := tight
+		if name == "rgba-band" {
+			src = impPremul(tight)
+		}
+		oy, eb := []int{0, 1, 3}[g.Intn(3)], 1+g.Intn(2)
+		stride, ph := 4*w, oy+h+eb
+		pix := impNoOpaqueAlpha(g.Bytes(stride * ph))
+		copy(pix[oy*stride:], src)
+		inside := func(i int) bool { return i >= oy*stride && i < (oy+h)*stride }
+		if name == "rgba-band" {
+			parent := &image.RGBA{Pix: pix, Stride: stride, Rect: image.Rect(0, 0, w, ph)}
+			m := parent.SubImage(image.Rect(0, oy, w, oy+h)).(*image.RGBA)
+			return &impPlaced{img: m, buf: pix, hdr: rgbaHdr(m), inside: inside}, ""
+		}
+		parent := &image.NRGBA{Pix: pix, Stride: stride, Rect: image.Rect(0, 0, w, ph)}
+		m := parent.SubImage(image.Rect(0, oy, w, oy+h)).(*image.NRGBA)
+		return &impPlaced{img: m, buf: pix, hdr: nrgbaHdr(m), inside: inside}, ""
+	case "tail", "rgba-tail":
+		// origin, tight stride, but len(Pix) = h*Stride + 1..64 garbage bytes and cap(Pix) > len(Pix)
+		src := tight
+		if name == "rgba-tail" {
+			src = impPremul(tight)
+		}
+		n, extra, spare := 4*w*h, 1+g.Intn(64), 1+g.Intn(32)
+		whole := make([]byte, n+extra+spare)
+		copy(whole, src)
+		copy(whole[n:], impNoOpaqueAlpha(g.Bytes(extra+spare)))
+		pix := whole[:n+extra]
+		inside := func(i int) bool { return i < n }
+		if name == "rgba-tail" {
+			m := &image.RGBA{Pix: pix, Stride: 4 * w, Rect: image.Rect(0, 0, w, h)}
+			return &impPlaced{img: m, buf: whole, hdr: rgbaHdr(m), inside: inside}, ""
+		}
+		m := &image.NRGBA{Pix: pix, Stride: 4 * w, Rect: image.Rect(0, 0, w, h)}
+		return &impPlaced{img: m, buf: whole, hdr: nrgbaHdr(m), inside: inside}, ""
 	case "generic":
 		m := origin()
 		return &impPlaced{img: impGenNRGBA{m}, buf: m.Pix, hdr: nrgbaHdr(m)}, ""
@@ -840,6 +994,14 @@ func impEncode(p *impPlaced, o impOpts) (res impEnc) {
 	return
 }
 
+// impHist is a mismatch that was observed but did not show again in every serial re-run.
+type impHist struct {
+	c     impCase
+	seen  string // what was observed
+	again bool   // it did show in some re-run
+	pic   string
+}
+
 // impCase is a replayable (and shrinkable) violation candidate.
 type impCase struct {
 	Check     string // identity | outside-bytes | caller-modified
@@ -848,6 +1010,7 @@ type impCase struct {
 	Placement string
 	Opts      string
 	GSeed     uint64
+	Prior     string // identity only: what the process encodes immediately before the placement ("" = nothing)
 }
 
 func (c *impCase) signature() string {
@@ -858,12 +1021,70 @@ func (c *impCase) signature() string {
 	case "caller-modified":
 		return "import:" + c.Placement + ":caller-modified"
 	}
+	if c.Prior != "" {
+		return "import:" + c.Placement + ":" + o.path() + ":after-" + c.Prior
+	}
 	return "import:" + c.Placement + ":" + o.path()
+}
+
+// histSignature names a mismatch that does not show on every attempt: placement and codec only
+// (which option set / prior happened to expose it is in the detail).
+func (c *impCase) histSignature() string {
+	o, _ := parseImpOpts(c.Opts)
+	what := "lossy"
+	switch {
+	case c.Check != "identity":
+		what = c.Check
+	case o.lossless:
+		what = "lossless"
+	}
+	return "import:" + c.Placement + ":" + what + ":history-dependent"
 }
 
 func (c *impCase) input() map[string]any {
 	return map[string]any{"op": "impcase", "check": c.Check, "w": c.W, "h": c.H, "pix": hx(c.Pix),
-		"placement": c.Placement, "opts": c.Opts, "gseed": strconv.FormatUint(c.GSeed, 10)}
+		"placement": c.Placement, "opts": c.Opts, "gseed": strconv.FormatUint(c.GSeed, 10), "prior": c.Prior}
+}
+
+// ---- the history leg: an earlier encode of another picture with equal macroblock dimensions ----
+//
+// lossy.NewEncoder recycles a pooled VP8Encoder when ceil(w/16) x ceil(h/16) match, so the picture
+// encoded immediately before decides what the import's scratch buffers hold. C19 quantifies over
+// the image value only: the encoding of a placement must equal the reference encoding whatever was
+// encoded before. Each prior is built to leave a different part of the encoder dirty.
+var impPriorsLossy = []string{"dither-alpha", "generic-exact-alpha", "nrgba-alpha", "generic-opaque"}
+
+const impPriorLossless = "lossless-alpha"
+
+// impPriorEncode encodes the prior picture of kind for a w x h picture (a function of gseed, w, h).
+func impPriorEncode(kind string, w, h int, gseed uint64, o impOpts) string {
+	pw := mini(16*((w+15)>>4-1)+1+int(gseed>>3&15), 16383)
+	ph := mini(16*((h+15)>>4-1)+1+int(gseed>>7&15), 16383)
+	m := &image.NRGBA{Pix: impPriorPixels(gseed^uint64(w*131+h), pw, ph, kind != "generic-opaque"), Stride: 4 * pw, Rect: image.Rect(0, 0, pw, ph)}
+	var img image.Image = m
+	e := webp.DefaultOptions()
+	e.Method = o.method
+	switch kind {
+	case "dither-alpha": // serial import of a *image.NRGBA, alpha rows copied
+		e.Preprocessing = 2
+	case "generic-exact-alpha": // serial import through At(), alpha rows copied (Exact: no NRGBA clean-up copy)
+		img, e.Exact = impGenNRGBA{m}, true
+	case "nrgba-alpha": // row-parallel import, alpha rows copied into the pooled UV workers
+	case "generic-opaque": // serial import, opaque
+		img = impGenNRGBA{m}
+	case impPriorLossless:
+		e.Lossless, e.Quality = true, float32(o.quality)
+	default:
+		return "unknown-prior"
+	}
+	st, _ := guard(func() string {
+		var buf bytes.Buffer
+		if err := webp.Encode(&buf, img, e); err != nil {
+			return "err"
+		}
+		return "ok"
+	})
+	return st
 }
 
 // run re-executes the case from scratch; violated == true when the property fails.
@@ -880,6 +1101,21 @@ func (c *impCase) run() (violated bool, detail string) {
 	case "identity":
 		ref, _ := impPlace(impRefOf(c.Placement), c.W, c.H, c.Pix, c.GSeed)
 		a := impEncode(ref, o)
+		if c.Prior != "" {
+			// the pool hands the prior's encoder to the next NewEncoder of the same goroutine almost always;
+			// three rounds make up for a garbage collection or a migration in between (a correct import never differs)
+			for round := 0; round < 3; round++ {
+				if st := impPriorEncode(c.Prior, c.W, c.H, c.GSeed, o); st != "ok" {
+					return false, "prior encode: " + st
+				}
+				b := impEncode(p, o)
+				if !a.same(b) {
+					return true, fmt.Sprintf("%s (first encode of the run): %s vs %s encoded right after a %s picture with the same macroblock dimensions: %s, first difference at byte %d",
+						impRefOf(c.Placement), a, c.Placement, c.Prior, b, firstDiff(a.data, b.data))
+				}
+			}
+			return false, "identical: " + a.String()
+		}
 		b := impEncode(p, o)
 		if a.same(b) {
 			return false, "identical: " + a.String()
@@ -978,16 +1214,21 @@ func replayImpCase(in map[string]any) int {
 	c.Pix = unhx(ps)
 	gs, _ := in["gseed"].(string)
 	c.GSeed, _ = strconv.ParseUint(gs, 10, 64)
+	c.Prior, _ = in["prior"].(string)
 	all, anyV, d := c.reproduces(3)
 	if !anyV {
 		_, d = c.run()
 	}
-	fmt.Printf("%s %dx%d %s %s: %s\n", c.Check, c.W, c.H, c.Placement, c.Opts, d)
+	fmt.Printf("%s %dx%d %s %s prior=%q: %s\n", c.Check, c.W, c.H, c.Placement, c.Opts, c.Prior, d)
+	if note, _ := in["note"].(string); note != "" {
+		fmt.Println("recorded with the finding:", note)
+	}
 	if all {
 		return 1
 	}
 	if anyV {
-		fmt.Println("violation shows only in some of 3 runs (history dependence, not C19)")
+		fmt.Println("violation shows only in some of 3 runs: the encoding depends on what the process encoded before (still a C19 violation: same picture, two storage forms, different files)")
+		return 1
 	}
 	return 0
 }
@@ -1022,7 +1263,10 @@ func suiteImport(rep *Report) error {
 	if rich {
 		nCorrPics, nPics, nLossless, nLossy = 3000, 5000, 8, 32
 	}
-	rep.Rule = "pictures from GenImage (8 colour classes x 7 alpha classes, plus sprinkled low/boundary alpha values), sizes 1..48 with emphasis on 1xN, Nx1 and the 8/16/17/32/33 boundaries; Part B: each picture is embedded at the origin, as a SubImage of a garbage-filled parent (also with a non-zero parent origin), with padded (also non-multiple-of-4) stride, with a shifted Rect, as *image.NRGBA / *image.RGBA (properly premultiplied, and deliberately invalid c>a) and behind image.Image-only wrappers, plus malformed Pix/Stride/Rect values for the guarded webp-level functions, and every import loop of encode.go and lossy/encode.go is compared with the Lean model; Part C: webp.Encode of 12 placements of the same pixels (3 sub-images, 2 paddings, shifted Rect, 4 generic wrappers, RGBA vs generic RGBA, RGBA sub-image) under lossless/lossy x Exact x SharpYUV x dithering x Method{0,4} x 2 qualities must be byte-identical to the origin encoding, stay identical after every/some outside byte is changed, and leave the caller's whole buffer and header unchanged; non-trivial = the picture has at least two different pixel values (a wrong offset, stride or conversion would change the imported data) and the comparison was actually carried out; distinct = FNV of picture + placement + option set (Part C) or of the driver line (Part B)"
+	rep.Rule = "pictures from GenImage (8 colour classes x 7 alpha classes, plus sprinkled low/boundary alpha values; a third forced opaque, because has-alpha scans are only observable on opaque pictures), sizes 1..48 with emphasis on 1xN, Nx1 and the 8/16/17/32/33 boundaries; Part B: each picture is embedded at the origin, as a SubImage of a garbage-filled parent (also with a non-zero parent origin), as a full-width band of a taller parent (Stride == 4w with trailing rows whose alpha bytes are never 255), with 1..64 trailing garbage bytes after a tight picture, with padded (also non-multiple-of-4) stride, with a shifted Rect, as *image.NRGBA / *image.RGBA (properly premultiplied, and deliberately invalid c>a) and behind image.Image-only wrappers, plus malformed Pix/Stride/Rect values for the guarded webp-level functions, and every import loop of encode.go and lossy/encode.go is compared with the Lean model; the plane imports (imp_y, imp_uvrows) run for 6 lines out of 7 on a VP8Encoder object that has just imported another picture of the same macroblock dimensions (alpha through At(), alpha with dithering, alpha on the row-parallel path, opaque through At(); hook ImportPlanesAfter, pool reuse verified by pointer), the model answer being a function of the image alone; Part C: webp.Encode of 16 placements of the same pixels (3 sub-images, 2 paddings, shifted Rect, full-width band, trailing bytes with cap>len, 4 generic wrappers, RGBA vs generic RGBA / RGBA sub-image / band / tail) under lossless/lossy x Exact x SharpYUV x dithering x Method{0,4} x 2 qualities must be byte-identical to the origin encoding, stay identical after every/some outside byte is changed, leave the caller's whole buffer and header unchanged, and (5 option sets per picture) still equal the reference when the placement is encoded right after another picture with equal macroblock dimensions (dithered alpha, generic Exact alpha, NRGBA alpha, generic opaque, lossless alpha); about 10 extra pictures per run have threshold-crossing sizes (thresholds.go: widths/heights 256..16383, pixel counts 1000..100000, 510 macroblocks, 3/4/6 macroblock rows) with cheap content; a mismatch that does not show again when re-run is reported as ':history-dependent', never dropped (counter nonreproducible); non-trivial = the picture has at least two different pixel values (a wrong offset, stride or conversion would change the imported data) and the comparison was actually carried out; distinct = FNV of picture + placement + option set [+ prior] (Part C) or of the driver line (Part B)"
+
+	impPriorReused.Store(0)
+	impPriorNotReused.Store(0)
 
 	// ----- Part B: correspondence with the Lean model -----
 	t0 := time.Now()
@@ -1035,6 +1279,7 @@ func suiteImport(rep *Report) error {
 	if err != nil {
 		return err
 	}
+	rep.Extra["corr_driver_wall_s"] = time.Since(t0).Seconds()
 	type lineRes struct {
 		match, callerMod bool
 		goDesc           string
@@ -1071,19 +1316,41 @@ func suiteImport(rep *Report) error {
 			rep.Add(Finding{Kind: "property", Property: "C19", Signature: "import:" + op + ":caller-modified",
 				Detail: "the function behind " + op + " wrote into the caller's Pix", Input: map[string]any{"op": "impline", "line": l.line}})
 		}
+		prior := ""
+		if op == "imp_y" || op == "imp_uvrows" {
+			if prior = impPriorKind(l.line); prior != "" && !strings.HasPrefix(lres[i].goDesc, "skipped") {
+				rep.Count("corr-prior:" + op + ":" + prior)
+			}
+		}
 		if lres[i].match {
 			continue
 		}
-		// a tie failure must be stable (the Go side is deterministic; re-evaluate once)
-		if m2, _, _ := impCheckLine(l.line, lean[i]); m2 {
+		// A tie failure must be stable: the function behind the op is a function of its argument. When
+		// the re-evaluation agrees with the model, the real code returned two different answers for the
+		// same image value in one process, i.e. the import depends on what the process did before. That
+		// is reported (C19: the result depends on the picture only), never dropped.
+		if m2, g2, _ := impCheckLine(l.line, lean[i]); m2 {
 			rep.Count("nonreproducible")
-			rep.Notes = append(rep.Notes, "correspondence mismatch did not reproduce on re-evaluation: "+short(l.line, 120))
+			rep.Count("nonreproducible:corr:" + op + ":" + src)
+			if len(rep.Notes) < 12 {
+				rep.Notes = append(rep.Notes, "correspondence mismatch did not reproduce on re-evaluation (reported as history-dependent): "+short(l.line, 120))
+			}
+			rep.Add(Finding{Kind: "property", Property: "C19", Signature: "import:" + op + ":" + src + ":history-dependent",
+				Detail: fmt.Sprintf("line %q: first evaluation go %s, lean %s; second evaluation of the same line in the same process agrees with the model (go %s): the function behind %s returned two different results for one image value, so its result depends on earlier calls (pooled encoder state), not on the picture alone; a replay in a fresh process need not reproduce",
+					short(l.line, 160), short(lres[i].goDesc, 240), short(lean[i], 120), short(g2, 240), op),
+				Input: map[string]any{"op": "impline", "line": l.line, "note": "history dependent: seen in the suite process, second evaluation matched"}})
 			continue
 		}
-		rep.Add(Finding{Kind: "correspondence", Property: "C19", Signature: "import:" + op + ":" + src,
-			Detail: fmt.Sprintf("line %q: go %s, lean %s", short(l.line, 160), short(lres[i].goDesc, 240), short(lean[i], 120)),
+		sig := "import:" + op + ":" + src
+		if prior != "" {
+			sig += ":dirty-encoder" // evaluated on an encoder that had just imported another picture (kind in the detail)
+		}
+		rep.Add(Finding{Kind: "correspondence", Property: "C19", Signature: sig,
+			Detail: fmt.Sprintf("line %q: go %s, lean %s", short(l.line, 160), short(lres[i].goDesc, 360), short(lean[i], 120)),
 			Input:  map[string]any{"op": "impline", "line": l.line}})
 	}
+	rep.CountN("corr-prior:encoder-reused", int(impPriorReused.Load()))
+	rep.CountN("corr-prior:encoder-not-reused", int(impPriorNotReused.Load()))
 	rep.Extra["corr_lines"] = len(lines)
 	rep.Extra["corr_wall_s"] = time.Since(t0).Seconds()
 	t1 := time.Now()
@@ -1092,141 +1359,257 @@ func suiteImport(rep *Report) error {
 	// ----- Part C: the property end to end -----
 	allLL, allLY := impAllOpts()
 	sizes := []int{1, 2, 3, 5, 7, 8, 9, 15, 16, 17, 23, 31, 32, 33, 47, 48}
+	// pictures whose size sits just below / on / just above a numeric threshold of the code (row
+	// buffers, pixel counts, macroblock counts, the serial/pipelined encoder switch); cheap content
+	nThr, nThrRows := 8, 2
+	if rich {
+		nThr, nThrRows = 30, 6
+	}
+	thr := DrawThresholdCases(rep.Seed, 0x1909, nThr, ThresholdFilter{Units: []string{"width", "height", "pixels", "mbs", "mbrows"}, MinValue: 200, MaxPixels: 120000})
+	thr = append(thr, DrawThresholdCases(rep.Seed, 0x190a, nThrRows, ThresholdFilter{Units: []string{"mbrows"}, MaxPixels: 120000})...)
+	for _, tc := range thr {
+		CountThreshold(rep, tc)
+	}
+	rep.Extra["threshold_cases"] = fmt.Sprint(thr)
+	nAll := nPics + len(thr)
+	histSel := func(k int) bool { return k == 0 || k == 4 || k == 5 || k == 10 }
+	if rich {
+		histSel = func(k int) bool { return k%5 == 0 }
+	}
+
 	type picOut struct {
 		cands []impCase // violation candidates that reproduced serially
+		hist  []impHist // mismatches that were seen once and did not show again in serial re-runs
 	}
-	outs := make([]picOut, nPics)
+	outs := make([]picOut, nAll)
 	var notesMu sync.Mutex
-	var wg sync.WaitGroup
-	nw := runtime.NumCPU()
-	for wk := 0; wk < nw; wk++ {
-		wg.Add(1)
-		go func(wk int) {
-			defer wg.Done()
-			for i := wk; i < nPics; i += nw {
-				r := NewRNG(rep.Seed, 1_000_000+uint64(i))
-				var w, h int
-				switch r.Intn(8) {
-				case 0:
-					w, h = 1, 1+r.Intn(48)
-				case 1:
-					w, h = 1+r.Intn(48), 1
-				case 2, 3:
-					w, h = 1+r.Intn(48), 1+r.Intn(48)
-				case 4:
-					w, h = 1+r.Intn(4), 1+r.Intn(4)
-				default:
-					w, h = sizes[r.Intn(len(sizes))], sizes[r.Intn(len(sizes))]
-				}
-				cls, acls := r.Intn(NumImgClasses), r.Intn(NumAlphaClasses)
-				if r.Chance(1, 3) {
-					acls = AlphaNone
-				}
-				pic := GenImage(r, w, h, cls, acls)
-				tweak := 0
-				if acls != AlphaNone && r.Chance(1, 2) {
-					tweak = 1 + r.Intn(2)
-				}
-				impTweak(r, pic, tweak)
-				tight := pic.Pix
-				flat := impFlat(tight)
-				akind := impAlphaKind(tight)
-				rep.Count("pic:" + imgClassNames[cls] + "/" + akind)
-				rep.Count(fmt.Sprintf("size:w%%16=%d,h%%16=%d", mini(w%16, 2), mini(h%16, 2)))
-				switch {
-				case w == 1 || h == 1:
-					rep.Count("shape:line")
-				case w*h <= 64:
-					rep.Count("shape:small")
-				default:
-					rep.Count("shape:large")
-				}
-				if i < 3 {
-					rep.Sample(map[string]any{"picture": imgDesc(w, h, cls, acls), "tweak": tweak})
-				}
-				pdig := fnv1a(tight)
-				gseed := r.Next() >> 12
+	doPic := func(i int) {
+		r := NewRNG(rep.Seed, 1_000_000+uint64(i))
+		var w, h, acls, tweak int
+		var pic *image.NRGBA
+		var desc, clsName string
+		isThr := i >= nPics
+		if isThr {
+			tc := thr[i-nPics]
+			w, h = tc.W, tc.H
+			kind := 1 + r.Intn(NumCheapClasses-1)
+			acls = AlphaNone
+			if r.Chance(1, 2) {
+				acls = []int{AlphaGradient, AlphaBinary, AlphaSparse, AlphaSemiFlat}[r.Intn(4)]
+			}
+			pic = GenCheapImage(r, w, h, kind, acls)
+			desc, clsName = cheapDesc(w, h, kind, acls)+" "+tc.String(), "cheap-"+cheapNames[kind]
+		} else {
+			switch r.Intn(8) {
+			case 0:
+				w, h = 1, 1+r.Intn(48)
+			case 1:
+				w, h = 1+r.Intn(48), 1
+			case 2, 3:
+				w, h = 1+r.Intn(48), 1+r.Intn(48)
+			case 4:
+				w, h = 1+r.Intn(4), 1+r.Intn(4)
+			default:
+				w, h = sizes[r.Intn(len(sizes))], sizes[r.Intn(len(sizes))]
+			}
+			var cls int
+			cls, acls = r.Intn(NumImgClasses), r.Intn(NumAlphaClasses)
+			if r.Chance(1, 3) {
+				acls = AlphaNone
+			}
+			pic = GenImage(r, w, h, cls, acls)
+			if acls != AlphaNone && r.Chance(1, 2) {
+				tweak = 1 + r.Intn(2)
+			}
+			impTweak(r, pic, tweak)
+			desc, clsName = imgDesc(w, h, cls, acls), imgClassNames[cls]
+		}
+		tight := pic.Pix
+		flat := impFlat(tight)
+		akind := impAlphaKind(tight)
+		rep.Count("pic:" + clsName + "/" + akind)
+		rep.Count(fmt.Sprintf("size:w%%16=%d,h%%16=%d", mini(w%16, 2), mini(h%16, 2)))
+		switch {
+		case isThr:
+			rep.Count("shape:threshold")
+		case w == 1 || h == 1:
+			rep.Count("shape:line")
+		case w*h <= 64:
+			rep.Count("shape:small")
+		default:
+			rep.Count("shape:large")
+		}
+		if i < 3 || i == nPics {
+			rep.Sample(map[string]any{"picture": desc, "tweak": tweak})
+		}
+		pdig := fnv1a(tight)
+		gseed := r.Next() >> 12
 
-				var sets []impOpts
-				for k := 0; k < nLossless; k++ {
-					sets = append(sets, allLL[(i*nLossless+k)%len(allLL)])
+		// classify a mismatch that was just observed: it either shows in both of two serial re-runs
+		// (shrinkable candidate) or it does not (history dependence; reported all the same)
+		classify := func(c impCase, seen string) {
+			all, anyV, _ := c.reproduces(2)
+			if all {
+				outs[i].cands = append(outs[i].cands, c)
+				return
+			}
+			rep.Count("nonreproducible")
+			rep.Count("nonreproducible:" + c.histSignature())
+			outs[i].hist = append(outs[i].hist, impHist{c: c, seen: seen, again: anyV, pic: desc})
+			notesMu.Lock()
+			if len(rep.Notes) < 12 {
+				rep.Notes = append(rep.Notes, fmt.Sprintf("mismatch %s %s %s on %s did not reproduce serially (again in some run: %v): reported as history-dependent", c.Check, c.Placement, c.Opts, desc, anyV))
+			}
+			notesMu.Unlock()
+		}
+
+		type optSet struct {
+			o     impOpts
+			prior string
+		}
+		var sets []optSet
+		if isThr {
+			j := i - nPics
+			sets = []optSet{{allLL[(2*j)%len(allLL)], ""}, {allLY[(5*j)%len(allLY)], impPriorsLossy[j%len(impPriorsLossy)]}, {allLY[(5*j+17)%len(allLY)], ""}}
+		} else {
+			for k := 0; k < nLossless; k++ {
+				prior := ""
+				if k == 0 {
+					prior = impPriorLossless
 				}
-				for k := 0; k < nLossy; k++ {
-					sets = append(sets, allLY[(i*nLossy+k)%len(allLY)])
+				sets = append(sets, optSet{allLL[(i*nLossless+k)%len(allLL)], prior})
+			}
+			nh := 0
+			for k := 0; k < nLossy; k++ {
+				prior := ""
+				if histSel(k) {
+					prior = impPriorsLossy[(i+nh)%len(impPriorsLossy)]
+					nh++
 				}
-				for _, o := range sets {
-					rep.Count("opts:" + o.String())
-					rep.Count("path:" + o.path())
-					refs := map[string]impEnc{}
-					for _, refName := range []string{"origin", "rgba"} {
-						p, _ := impPlace(refName, w, h, tight, gseed)
-						e := impEncode(p, o)
-						refs[refName] = e
-						if e.status != "ok" {
-							rep.Count("encode-" + e.status + ":" + refName)
-						}
-						if e.modified {
-							outs[i].cands = append(outs[i].cands, impCase{"caller-modified", w, h, tight, refName, o.String(), gseed})
-						}
+				sets = append(sets, optSet{allLY[(i*nLossy+k)%len(allLY)], prior})
+			}
+		}
+		for _, set := range sets {
+			o := set.o
+			rep.Count("opts:" + o.String())
+			rep.Count("path:" + o.path())
+			refs := map[string]impEnc{}
+			for _, refName := range []string{"origin", "rgba"} {
+				p, _ := impPlace(refName, w, h, tight, gseed)
+				e := impEncode(p, o)
+				refs[refName] = e
+				if e.status != "ok" {
+					rep.Count("encode-" + e.status + ":" + refName)
+				}
+				if e.modified {
+					outs[i].cands = append(outs[i].cands, impCase{"caller-modified", w, h, tight, refName, o.String(), gseed, ""})
+				}
+			}
+			for _, pl := range impPlacements {
+				key := []byte(fmt.Sprintf("%d|%dx%d|%s|%s", pdig, w, h, pl, o.String()))
+				p, why := impPlace(pl, w, h, tight, gseed)
+				if p == nil {
+					rep.Count("skipped:" + pl + ":" + why)
+					rep.Eval(false, key)
+					continue
+				}
+				rep.Count("placement:" + pl)
+				e := impEncode(p, o)
+				rep.Eval(!flat, key)
+				c := impCase{"identity", w, h, tight, pl, o.String(), gseed, ""}
+				ref := refs[impRefOf(pl)]
+				if e.modified {
+					cm := c
+					cm.Check = "caller-modified"
+					outs[i].cands = append(outs[i].cands, cm)
+				}
+				identical := e.same(ref)
+				if identical {
+					rep.Count("cmp:identical")
+				} else {
+					rep.Count("cmp:different:" + pl + ":" + akind)
+					classify(c, fmt.Sprintf("%s: %s vs %s: %s, first difference at byte %d", impRefOf(pl), ref, pl, e, firstDiff(ref.data, e.data)))
+				}
+				if p.inside != nil {
+					n := p.mutateOutside(NewRNG(gseed, 77))
+					e2 := impEncode(p, o)
+					rep.Count("outside:checked")
+					rep.CountN("outside:bytes-changed", n)
+					if !e2.same(e) {
+						co := c
+						co.Check = "outside-bytes"
+						classify(co, fmt.Sprintf("%s before: %s, after changing %d bytes outside the bounds: %s, first difference at byte %d", pl, e, n, e2, firstDiff(e.data, e2.data)))
 					}
-					for _, pl := range impPlacements {
-						key := []byte(fmt.Sprintf("%d|%dx%d|%s|%s", pdig, w, h, pl, o.String()))
-						p, why := impPlace(pl, w, h, tight, gseed)
-						if p == nil {
-							rep.Count("skipped:" + pl + ":" + why)
-							rep.Eval(false, key)
-							continue
-						}
-						rep.Count("placement:" + pl)
-						e := impEncode(p, o)
-						rep.Eval(!flat, key)
-						c := impCase{"identity", w, h, tight, pl, o.String(), gseed}
-						if e.modified {
-							cm := c
-							cm.Check = "caller-modified"
-							outs[i].cands = append(outs[i].cands, cm)
-						}
-						if e.same(refs[impRefOf(pl)]) {
-							rep.Count("cmp:identical")
-						} else {
-							rep.Count("cmp:different:" + pl + ":" + akind)
-							if all, anyV, _ := c.reproduces(2); all {
-								outs[i].cands = append(outs[i].cands, c)
-							} else {
-								rep.Count("nonreproducible")
-								notesMu.Lock()
-								if len(rep.Notes) < 12 {
-									rep.Notes = append(rep.Notes, fmt.Sprintf("mismatch %s %s on %s did not reproduce serially (again in some run: %v): history dependence is a different property", pl, o.String(), imgDesc(w, h, cls, acls), anyV))
-								}
-								notesMu.Unlock()
-							}
-						}
-						if p.inside != nil {
-							n := p.mutateOutside(NewRNG(gseed, 77))
-							e2 := impEncode(p, o)
-							rep.Count("outside:checked")
-							rep.CountN("outside:bytes-changed", n)
-							if !e2.same(e) {
-								co := c
-								co.Check = "outside-bytes"
-								if all, _, _ := co.reproduces(2); all {
-									outs[i].cands = append(outs[i].cands, co)
-								} else {
-									rep.Count("nonreproducible")
-								}
-							}
-							if e2.modified {
-								cm := c
-								cm.Check = "caller-modified"
-								outs[i].cands = append(outs[i].cands, cm)
-							}
-						}
+					if e2.modified {
+						cm := c
+						cm.Check = "caller-modified"
+						outs[i].cands = append(outs[i].cands, cm)
+					}
+				}
+				if set.prior != "" {
+					// the same placement once more, right after this goroutine encoded another picture with
+					// equal macroblock dimensions: the result must still be the reference encoding
+					p2, _ := impPlace(pl, w, h, tight, gseed)
+					st := impPriorEncode(set.prior, w, h, gseed, o)
+					e3 := impEncode(p2, o)
+					rep.Count("prior:" + set.prior + ":" + st)
+					rep.Eval(!flat, append(key, ("|after-"+set.prior)...))
+					cp := c
+					cp.Prior = set.prior
+					if e3.modified {
+						cm := c
+						cm.Check = "caller-modified"
+						outs[i].cands = append(outs[i].cands, cm)
+					}
+					switch {
+					case e3.same(ref):
+						rep.Count("cmp-after-prior:identical")
+					case !identical:
+						rep.Count("cmp-after-prior:different-without-prior-too") // already a candidate above
+					default:
+						rep.Count("cmp-after-prior:different:" + pl + ":" + akind)
+						classify(cp, fmt.Sprintf("%s: %s vs %s encoded right after a %s picture: %s, first difference at byte %d", impRefOf(pl), ref, pl, set.prior, e3, firstDiff(ref.data, e3.data)))
 					}
 				}
 			}
-		}(wk)
+		}
 	}
-	wg.Wait()
+	{
+		// work queue: the (large) threshold pictures first
+		order := make([]int, 0, nAll)
+		for i := nPics; i < nAll; i++ {
+			order = append(order, i)
+		}
+		for i := 0; i < nPics; i++ {
+			order = append(order, i)
+		}
+		var next, thrNanos, picNanos atomic.Int64
+		defer func() {
+			rep.Extra["encode_threshold_pictures_busy_s"] = float64(thrNanos.Load()) / 1e9
+			rep.Extra["encode_small_pictures_busy_s"] = float64(picNanos.Load()) / 1e9
+		}()
+		var wg sync.WaitGroup
+		for wk := 0; wk < runtime.NumCPU(); wk++ {
+			wg.Add(1)
+			go func() {
+				defer wg.Done()
+				for {
+					k := int(next.Add(1)) - 1
+					if k >= len(order) {
+						return
+					}
+					tp := time.Now()
+					doPic(order[k])
+					if order[k] >= nPics {
+						thrNanos.Add(int64(time.Since(tp)))
+					} else {
+						picNanos.Add(int64(time.Since(tp)))
+					}
+				}
+			}()
+		}
+		wg.Wait()
+	}
 	rep.Extra["encode_wall_s"] = time.Since(t1).Seconds()
 
 	// violations: per signature shrink the first few (in picture order), report the smallest
@@ -1246,37 +1629,82 @@ func suiteImport(rep *Report) error {
 		}
 	}
 	sort.Strings(sigs)
+	var late []impHist // candidates that stopped reproducing after the collection phase
 	for _, s := range sigs {
 		rep.CountN("violations:"+s, total[s])
 		cs := bySig[s]
-		shr := make([]impCase, len(cs))
+		type pair struct{ orig, shr impCase }
+		prs := make([]pair, len(cs))
 		var swg sync.WaitGroup
 		for k := range cs {
 			swg.Add(1)
 			go func(k int) {
 				defer swg.Done()
-				shr[k] = cs[k].shrink()
+				prs[k] = pair{cs[k], cs[k].shrink()}
 			}(k)
 		}
 		swg.Wait()
-		sort.SliceStable(shr, func(a, b int) bool { return shr[a].W*shr[a].H < shr[b].W*shr[b].H })
+		sort.SliceStable(prs, func(a, b int) bool { return prs[a].shr.W*prs[a].shr.H < prs[b].shr.W*prs[b].shr.H })
 		seen := map[string]bool{}
-		for k := range shr {
-			c := shr[k]
-			id := fmt.Sprintf("%dx%d|%x|%s", c.W, c.H, c.Pix, c.Opts)
+		for k := range prs {
+			c := prs[k].shr
+			id := fmt.Sprintf("%dx%d|%x|%s", c.W, c.H, fnv1a(c.Pix), c.Opts)
 			if seen[id] {
 				continue
 			}
 			seen[id] = true
 			all, _, d := c.reproduces(2)
+			note := ""
 			if !all {
-				rep.Count("nonreproducible")
-				continue
+				// Shrinking crops the picture (other macroblock dimensions) and runs 8 shrinkers at once, so a
+				// violation that needs a particular recycled encoder can get lost on the way. The candidate DID
+				// reproduce twice before shrinking: report it unshrunk rather than not at all.
+				c = prs[k].orig
+				var anyV bool
+				all, anyV, d = c.reproduces(2)
+				if !all {
+					rep.Count("nonreproducible")
+					rep.Count("nonreproducible:" + c.histSignature())
+					late = append(late, impHist{c: c, seen: "reproduced in two serial re-runs when first seen, no longer after shrinking: " + d, again: anyV, pic: fmt.Sprintf("%dx%d picture", c.W, c.H)})
+					continue
+				}
+				rep.Count("reported-unshrunk")
+				note = "; not shrinkable (the shrunk case stopped reproducing: the difference depends on which pooled encoder object is reused)"
 			}
 			rep.Add(Finding{Kind: "property", Property: "C19", Signature: s,
-				Detail: fmt.Sprintf("%dx%d picture, options %s: %s%s (%d occurrences in this run)", c.W, c.H, c.Opts, d, impPixDesc(&c), total[s]),
+				Detail: fmt.Sprintf("%dx%d picture, options %s: %s%s (%d occurrences in this run)%s", c.W, c.H, c.Opts, d, impPixDesc(&c), total[s], note),
 				Input:  c.input()})
 		}
+	}
+
+	// mismatches that did not reproduce: the same picture in two storage forms gave two different
+	// files in this process, although not on every attempt. C19 says the file depends on the picture
+	// only, whatever the process did before, so each is a finding (distinct signature, unshrunk).
+	var hists []impHist
+	for i := range outs {
+		hists = append(hists, outs[i].hist...)
+	}
+	hists = append(hists, late...)
+	htotal := map[string]int{}
+	for _, hc := range hists {
+		htotal[hc.c.histSignature()]++
+	}
+	sort.SliceStable(hists, func(a, b int) bool { return hists[a].c.W*hists[a].c.H < hists[b].c.W*hists[b].c.H })
+	for _, hc := range hists {
+		s := hc.c.histSignature()
+		in := hc.c.input()
+		in["note"] = "history dependent: " + hc.seen
+		rep.Add(Finding{Kind: "property", Property: "C19", Signature: s,
+			Detail: fmt.Sprintf("%s, check %s, options %s, prior %q: seen in the suite process: %s; did not show in every one of 2 serial re-runs (in some: %v), so the encoding of this picture depends on what was encoded before (recycled encoder state) and on the storage form; a replay in a fresh process need not reproduce (%d occurrences in this run)",
+				hc.pic, hc.c.Check, hc.c.Opts, hc.c.Prior, hc.seen, hc.again, htotal[s]),
+			Input: in})
+	}
+
+	nonrepro := rep.Distribution["nonreproducible"]
+	rep.CountN("nonreproducible", 0) // visible also when zero
+	rep.Extra["nonreproducible"] = nonrepro
+	if nonrepro > 0 {
+		rep.Notes = append(rep.Notes, fmt.Sprintf("nonreproducible = %d: mismatches that were observed once and did not show again when re-run; every one is reported as a C19 finding with a ':history-dependent' signature", nonrepro))
 	}
 	return nil
 }
